@@ -176,6 +176,19 @@ def run_check(spec, tier, seed, budget_scale=1.0, out=sys.stdout):
     # ---- 4. predicates on the implementation (both profiles) ----
     pred_fail = []    # (case, pred, profile, msg)
     npred = 0
+    crashed = []
+    for c in list(cases):
+        for pf, o in (('debug', dbg), ('release', rel)):
+            r0 = o[c.cid][0]
+            if r0 and r0[0][0] == 'X':
+                crashed.append((c, pf, r0[0][1]))
+    if crashed:
+        bad = {c.cid for c, _, _ in crashed}
+        for c, pf, why in crashed[:3]:
+            payload = {'property': pid, 'kind': 'crash', 'profile': pf, 'seed': seed, 'tag': c.tag, 'message': 'the implementation ' + why,
+                       'program': c.prog.to_json(), 'pretty': c.prog.pretty()}
+            violations.append(('crash', write_replay(pid, 'crash', payload), why, False))
+        cases = [c for c in cases if c.cid not in bad]
     for c in cases:
         for pf, o in (('debug', dbg), ('release', rel)):
             vals = o[c.cid][0]
